@@ -836,6 +836,7 @@ def run(repo: Repo, ctx) -> None:
                    sample=f'{kind} -> {c.func.attr}')
 
     _r9(repo, ctx)
+    _r10(repo, ctx)
 
 
 def _isa(repo: Repo, q: str) -> Set[str]:
@@ -923,3 +924,75 @@ def _r9(repo: Repo, ctx) -> None:
                    f'on every such path): the server keeps compiling '
                    f'later statements against the old {cname}', mq.loc,
                    sample=f'{target} set whenever comp.{cname} is not None')
+
+
+TX_STATE = {'_constate', '_id', '_implicit', '_current', '_state0',
+            '_savepoints'}
+SAVEPOINT_REMOVERS = {'_rollback_to_savepoint', '_release_savepoint'}
+
+
+def _r10(repo: Repo, ctx) -> None:
+    """Everything a transaction knows is in the snapshot that rollback
+    restores; savepoints disappear only by RELEASE / ROLLBACK TO."""
+    ctx.floor('C09.R10', 4)
+    tx = repo.cls('edb.server.compiler.dbstate.Transaction')
+    # (a) no per-transaction state outside the snapshot
+    extra = {}
+    for name, f in tx.methods.items():
+        for n in walk_no_nested(f.node):
+            tg = n.targets if isinstance(n, ast.Assign) else (
+                [n.target] if isinstance(n, (ast.AugAssign, ast.AnnAssign))
+                else [])
+            for t in tg:
+                for x in (t.elts if isinstance(t, ast.Tuple) else [t]):
+                    if isinstance(x, ast.Attribute) and norm(x.value) == \
+                            'self' and x.attr not in TX_STATE:
+                        extra.setdefault(x.attr, []).append(name)
+    ctx.ob('C09.R10', 'Transaction:state-is-in-the-snapshot', not extra,
+           f'Transaction keeps state in {sorted(extra)} (written by '
+           f'{sorted({m for v in extra.values() for m in v})}) besides the '
+           f'snapshot `_current`: ROLLBACK TO SAVEPOINT / sync_to_savepoint '
+           f're-point `_current` only, so whatever is derived from it and '
+           f'kept there survives the rollback (e.g. a cached chained schema '
+           f'keeps rolled-back DDL visible on the same worker)',
+           tx.loc, sample=sorted(TX_STATE))
+    # (b) who removes savepoints
+    for name, f in sorted(tx.methods.items()):
+        rem = []
+        for n in ast.walk(f.node):
+            if isinstance(n, ast.Delete) and any(
+                    isinstance(t, ast.Subscript) and norm(t.value) ==
+                    'self._savepoints' for t in n.targets):
+                rem.append(norm(n))
+            if isinstance(n, ast.Call) and isinstance(
+                    n.func, ast.Attribute) and n.func.attr in (
+                    'pop', 'popitem', 'clear') and norm(
+                    n.func.value) == 'self._savepoints':
+                rem.append(norm(n))
+        if not rem:
+            continue
+        ctx.ob('C09.R10', f'Transaction.{name}:removes-savepoints',
+               name in SAVEPOINT_REMOVERS,
+               f'Transaction.{name} removes savepoints ({rem}); only '
+               f'RELEASE and ROLLBACK TO may: PostgreSQL keeps an earlier '
+               f'savepoint of the same name when the name is declared '
+               f'again, and RELEASE of the newer one makes the older one '
+               f'addressable again', f.loc, sample=rem)
+    # (c) update_schema always records both halves of the new schema
+    us = tx.methods.get('update_schema')
+    if us is None:
+        raise AnalysisError('Transaction.update_schema not found')
+    g = CFG(us.node)
+    sets = [n.id for n in g.nodes if n.kind == 'stmt' and isinstance(
+        n.ast, ast.Assign) and norm(n.ast.targets[0]) == 'self._current'
+        and 'global_schema=' in norm(n.ast.value)
+        and 'user_schema=' in norm(n.ast.value)]
+    ok = bool(sets) and g.exit not in g.reachable(
+        [g.entry], avoid=sets, labels={'n', 'T', 'F'})
+    ctx.ob('C09.R10', 'Transaction.update_schema:records-both-schemas', ok,
+           'update_schema can return without storing the new user and '
+           'global schema: DDL that changes only the global schema (CREATE '
+           'ROLE) is invisible to the following statements and COMMIT '
+           'reports no new global schema', us.loc,
+           sample='_current._replace(local_user_schema=.., '
+                  'global_schema=..) on every path')
